@@ -26,12 +26,14 @@ CONSTANTS NP,         \* at most NP connected peers (np is chosen in Init)
           Codes,      \* reject classes used
           MaxDelay,   \* how often the reject timeout may pass
           MaxX,       \* rejects of an unrelated hash per history
+          MaxDup,     \* repeated messages per history (a peer sends a second getdata / a second
+                      \* reject of the tx, possibly of another class; at most two of a kind per peer)
           FixRejectFromReplier
 
-VARIABLES np, thr, replies, rej, cnt, closed, armed, verdict, sent, ndelay, nx,
+VARIABLES np, thr, replies, rej, cnt, closed, armed, verdict, sent, ndelay, nx, ndup,
           abs, act, viol
-cvars == <<np, thr, replies, rej, cnt, closed, armed, verdict, sent, ndelay, nx>>
-vars  == <<np, thr, replies, rej, cnt, closed, armed, verdict, sent, ndelay, nx, abs, act, viol>>
+cvars == <<np, thr, replies, rej, cnt, closed, armed, verdict, sent, ndelay, nx, ndup>>
+vars  == <<np, thr, replies, rej, cnt, closed, armed, verdict, sent, ndelay, nx, ndup, abs, act, viol>>
 
 Peers == 1..np
 
@@ -61,9 +63,14 @@ A(op, p, kind, code) == [op |-> op, p |-> p, kind |-> kind, code |-> code, res |
 EndIfAllClosed(cl, rp, r, c) ==
   IF cl = Peers THEN verdict' \in Verdicts(rp, r, c) ELSE verdict' = 0
 
+\* A peer may repeat a message of a kind once, within the budget MaxDup.
+MaySend(p, k) == sent[p][k] = 0 \/ (sent[p][k] = 1 /\ ndup < MaxDup)
+Sent(p, k) == /\ sent' = [sent EXCEPT ![p][k] = @ + 1]
+              /\ ndup' = IF sent[p][k] = 1 THEN ndup + 1 ELSE ndup
+
 GetData(p) ==                                              \* :1006
-  /\ verdict = 0 /\ sent[p][1] = 0
-  /\ sent' = [sent EXCEPT ![p][1] = 1]
+  /\ verdict = 0 /\ MaySend(p, 1)
+  /\ Sent(p, 1)
   /\ IF p \in closed
      THEN UNCHANGED <<replies, armed>>
      ELSE replies' = replies \cup {p} /\ armed' = armed \cup {p}
@@ -71,8 +78,8 @@ GetData(p) ==                                              \* :1006
   /\ Finish(A("Msg", p, "G", 0))
 
 Reject(p, c) ==                                            \* :1038
-  /\ verdict = 0 /\ sent[p][2] = 0
-  /\ sent' = [sent EXCEPT ![p][2] = 1]
+  /\ verdict = 0 /\ MaySend(p, 2)
+  /\ Sent(p, 2)
   /\ UNCHANGED <<np, thr, replies, armed, ndelay, nx>>
   /\ IF p \in closed \/ (FixRejectFromReplier /\ p \notin replies)
      THEN UNCHANGED <<rej, cnt, closed, verdict>>
@@ -85,7 +92,7 @@ Reject(p, c) ==                                            \* :1038
 RejectOther(p) ==                                          \* :1041
   /\ verdict = 0 /\ nx < MaxX
   /\ nx' = nx + 1
-  /\ UNCHANGED <<np, thr, replies, rej, cnt, closed, armed, verdict, sent, ndelay>>
+  /\ UNCHANGED <<np, thr, replies, rej, cnt, closed, armed, verdict, sent, ndelay, ndup>>
   /\ Finish(A("Msg", p, "X", 0))
 
 Delay ==                                                   \* delayedCloser fires
@@ -93,13 +100,13 @@ Delay ==                                                   \* delayedCloser fire
   /\ ndelay' = ndelay + 1
   /\ closed' = closed \cup armed
   /\ EndIfAllClosed(closed', replies, rej, cnt)
-  /\ UNCHANGED <<np, thr, replies, rej, cnt, armed, sent, nx>>
+  /\ UNCHANGED <<np, thr, replies, rej, cnt, armed, sent, nx, ndup>>
   /\ Finish(A("Delay", 0, "", 0))
 
 Timeout ==                                                 \* broadcast timeout :339
   /\ verdict = 0
   /\ verdict' \in Verdicts(replies, rej, cnt)
-  /\ UNCHANGED <<np, thr, replies, rej, cnt, closed, armed, sent, ndelay, nx>>
+  /\ UNCHANGED <<np, thr, replies, rej, cnt, closed, armed, sent, ndelay, nx, ndup>>
   /\ Finish(A("Finish", 0, "", 0))
 
 Init ==
@@ -109,7 +116,7 @@ Init ==
   /\ rej = [p \in Peers |-> 0]
   /\ cnt = <<0, 0, 0, 0, 0>>
   /\ sent = [p \in Peers |-> <<0, 0>>]
-  /\ verdict = 0 /\ ndelay = 0 /\ nx = 0
+  /\ verdict = 0 /\ ndelay = 0 /\ nx = 0 /\ ndup = 0
   /\ abs = AbsInit
   /\ act = A("Init", 0, "", 0)
   /\ viol = {}
@@ -131,7 +138,7 @@ TypeOK ==
 NoViolation == viol = {}
 
 State == [np |-> np, thr |-> thr, replies |-> replies, rej |-> rej, cnt |-> cnt, closed |-> closed,
-          armed |-> armed, verdict |-> verdict, sent |-> sent, ndelay |-> ndelay, nx |-> nx,
+          armed |-> armed, verdict |-> verdict, sent |-> sent, ndelay |-> ndelay, nx |-> nx, ndup |-> ndup,
           abs |-> abs]
-View == <<np, thr, replies, rej, cnt, closed, armed, verdict, sent, ndelay, nx, abs>>
+View == <<np, thr, replies, rej, cnt, closed, armed, verdict, sent, ndelay, nx, ndup, abs>>
 =============================================================================
